@@ -38,11 +38,22 @@ struct Ver {
    n: INone,
 }
 
-fn dump(v: &Ver, dom: u32, nk: u32) -> Vec<u64> {
+/// one view: its numbers, or -1 in every slot when reading it panics
+fn view(slots: usize, out: &mut Vec<i64>, f: impl FnOnce(&mut Vec<i64>)) {
+   let mut part: Vec<i64> = vec![];
+   let r = std::panic::catch_unwind(std::panic::AssertUnwindSafe(|| f(&mut part)));
+   if r.is_err() {
+      part = vec![-1; slots];
+   }
+   assert_eq!(part.len(), slots);
+   out.extend(part);
+}
+
+fn dump(v: &Ver, dom: u32, nk: u32) -> Vec<i64> {
    let d1 = dom + 1;
    let k1 = (nk + 1) as usize;
-   let mut out = vec![];
-   {
+   let mut res = vec![];
+   view(3 * k1 + 2, &mut res, |out| {
       let ind = v.f.to_rel_index(&v.c);
       let (mut get, mut ck, mut all) = (Acc::new(k1, d1), Acc::new(k1, d1), Acc::new(k1, d1));
       let mut badcnt = 0u64;
@@ -66,12 +77,12 @@ fn dump(v: &Ver, dom: u32, nk: u32) -> Vec<u64> {
             all.add(*key.0, *key.1, *key.2);
          }
       }
-      out.extend(get.masks.iter().cloned());
-      out.push(badcnt);
-      out.extend(ck.masks.iter().cloned());
-      all.out(&mut out);
-   }
-   {
+      out.extend(get.masks.iter().map(|m| *m as i64));
+      out.push(badcnt as i64);
+      out.extend(ck.masks.iter().map(|m| *m as i64));
+      all.out(out);
+   });
+   view(2 * k1 + 3, &mut res, |out| {
       let ind = v.i0.to_rel_index(&v.c);
       let (mut get, mut all) = (Acc::new(k1, d1), Acc::new(k1, d1));
       let mut some = 0u64;
@@ -88,11 +99,11 @@ fn dump(v: &Ver, dom: u32, nk: u32) -> Vec<u64> {
             all.add(key.0, *x, *y);
          }
       }
-      out.push(some);
-      get.out(&mut out);
-      all.out(&mut out);
-   }
-   {
+      out.push(some as i64);
+      get.out(out);
+      all.out(out);
+   });
+   view(2 * k1 + 3, &mut res, |out| {
       let ind = v.i1.to_rel_index(&v.c);
       let (mut get, mut all) = (Acc::new(k1, d1), Acc::new(k1, d1));
       let mut some = 0u64;
@@ -109,11 +120,11 @@ fn dump(v: &Ver, dom: u32, nk: u32) -> Vec<u64> {
             all.add(*k, key.0, *y);
          }
       }
-      out.push(some);
-      get.out(&mut out);
-      all.out(&mut out);
-   }
-   {
+      out.push(some as i64);
+      get.out(out);
+      all.out(out);
+   });
+   view(3 * k1 + 2, &mut res, |out| {
       let ind = v.i01.to_rel_index(&v.c);
       let (mut get, mut all) = (Acc::new(k1, d1), Acc::new(k1, d1));
       let mut some = vec![0u64; k1];
@@ -132,11 +143,11 @@ fn dump(v: &Ver, dom: u32, nk: u32) -> Vec<u64> {
             all.add(*key.0, *key.1, *y);
          }
       }
-      out.extend(some);
-      get.out(&mut out);
-      all.out(&mut out);
-   }
-   {
+      out.extend(some.iter().map(|m| *m as i64));
+      get.out(out);
+      all.out(out);
+   });
+   view(3 * k1 + 2, &mut res, |out| {
       let ind = v.i02.to_rel_index(&v.c);
       let (mut get, mut all) = (Acc::new(k1, d1), Acc::new(k1, d1));
       let mut some = vec![0u64; k1];
@@ -155,11 +166,11 @@ fn dump(v: &Ver, dom: u32, nk: u32) -> Vec<u64> {
             all.add(*key.0, *x, *key.1);
          }
       }
-      out.extend(some);
-      get.out(&mut out);
-      all.out(&mut out);
-   }
-   {
+      out.extend(some.iter().map(|m| *m as i64));
+      get.out(out);
+      all.out(out);
+   });
+   view(2 * k1 + 3, &mut res, |out| {
       let ind = v.i12.to_rel_index(&v.c);
       let (mut get, mut all) = (Acc::new(k1, d1), Acc::new(k1, d1));
       let mut some = 0u64;
@@ -178,11 +189,11 @@ fn dump(v: &Ver, dom: u32, nk: u32) -> Vec<u64> {
             all.add(*k, *key.0, *key.1);
          }
       }
-      out.push(some);
-      get.out(&mut out);
-      all.out(&mut out);
-   }
-   {
+      out.push(some as i64);
+      get.out(out);
+      all.out(out);
+   });
+   view(2 * k1 + 3, &mut res, |out| {
       let ind = v.n.to_rel_index(&v.c);
       let (mut get, mut all) = (Acc::new(k1, d1), Acc::new(k1, d1));
       let mut some = 0u64;
@@ -197,11 +208,11 @@ fn dump(v: &Ver, dom: u32, nk: u32) -> Vec<u64> {
             all.add(*k, *x, *y);
          }
       }
-      out.push(some);
-      get.out(&mut out);
-      all.out(&mut out);
-   }
-   out
+      out.push(some as i64);
+      get.out(out);
+      all.out(out);
+   });
+   res
 }
 
 struct St {
